@@ -152,6 +152,10 @@ fn literal_leaves() -> Vec<Expr> {
         v(Value::String("a\\b".into())),
         v(Value::String("line\n\ttab\r".into())),
         v(Value::String("cr\r\nlf\r\n".into())),
+        v(Value::String("a\\\nb \\\r\nc\\".into())),
+        Expr::Map([("limit".to_string(), Expr::symbol("limit")), ("a".to_string(), Expr::reff("a")), ("b".to_string(), Expr::reff("a"))].into_iter().collect()),
+        Expr::Map([("limit".to_string(), Expr::symbol("limit"))].into_iter().collect()),
+        Expr::Map([("a".to_string(), Expr::reff("a"))].into_iter().collect()),
         v(Value::String("\u{feff}bom\u{200b}zw\u{200d}\u{2060}\u{ad}".into())),
         v(Value::String("\u{201c}quoted\u{201d} \u{2028}\u{2029}\u{85}".into())),
         v(Value::String("é😀\u{0}".into())),
@@ -281,7 +285,7 @@ fn gen_tight(d: &mut Dec, depth: u32) -> Expr {
             2 => Expr::Value(Value::Float(*d.pick(&[5.0, -0.0, 1.5, -2.0, 1e21, 1e-7, f64::INFINITY]))),
             3 => Expr::Value(Value::Decimal(gen::gen_decimal(d))),
             4 => Expr::Value(Value::Int(*d.pick(&[-5i128, 5, 0, i128::MIN]))),
-            5 => Expr::Value(Value::String((*d.pick(&["a\"b", "a\\b", "\\", "\"", "x\ny", "\\\"", "é\\n", ""])).to_string())),
+            5 => Expr::Value(Value::String((*d.pick(&["a\"b", "a\\b", "\\", "\"", "x\ny", "\\\"", "é\\n", "", "a\\\nb", "\\\r\n"])).to_string())),
             6 => Expr::Value(Value::Bool(d.bool())),
             7 => Expr::Value(Value::None),
             // collections written out as literals of literals
